@@ -113,10 +113,9 @@ func NewJITCompilerWithConfig(hotPathThreshold int, recompileWindow time.Duratio
 func (jit *JITCompiler) CompileRoute(name string, route *ast.Route) ([]byte, error) {
 	startTime := time.Now()
 
-	// Check if we have a cached compiled unit
-	jit.unitsMux.RLock()
-	unit, exists := jit.units[name]
-	jit.unitsMux.RUnlock()
+	// Check if we have a cached compiled unit. Work on a copy taken under the
+	// lock: recompileRoute rewrites the cached unit's fields concurrently.
+	unit, exists := jit.snapshotUnit(name)
 
 	if exists {
 		// Update statistics
@@ -126,7 +125,7 @@ func (jit *JITCompiler) CompileRoute(name string, route *ast.Route) ([]byte, err
 
 		// Check if we should recompile to a higher tier
 		if jit.shouldRecompile(unit) {
-			return jit.recompileRoute(name, route, unit)
+			return jit.recompileRoute(name, route, unit.Tier)
 		}
 
 		return unit.Bytecode, nil
@@ -147,7 +146,7 @@ func (jit *JITCompiler) CompileRoute(name string, route *ast.Route) ([]byte, err
 	}
 
 	// Create compilation unit
-	unit = &CompilationUnit{
+	newUnit := &CompilationUnit{
 		Name:           name,
 		Bytecode:       bytecode,
 		Tier:           tier,
@@ -158,7 +157,7 @@ func (jit *JITCompiler) CompileRoute(name string, route *ast.Route) ([]byte, err
 
 	// Cache the unit
 	jit.unitsMux.Lock()
-	jit.units[name] = unit
+	jit.units[name] = newUnit
 	jit.unitsMux.Unlock()
 
 	// Update statistics
@@ -169,6 +168,20 @@ func (jit *JITCompiler) CompileRoute(name string, route *ast.Route) ([]byte, err
 	jit.statsMux.Unlock()
 
 	return bytecode, nil
+}
+
+// snapshotUnit returns a copy of the named unit taken under the lock. The
+// bytecode slice is shared, which is safe because a unit's bytecode is only ever
+// replaced, never modified in place.
+func (jit *JITCompiler) snapshotUnit(name string) (CompilationUnit, bool) {
+	jit.unitsMux.RLock()
+	defer jit.unitsMux.RUnlock()
+
+	unit, exists := jit.units[name]
+	if !exists {
+		return CompilationUnit{}, false
+	}
+	return *unit, true
 }
 
 // RecordExecution records an execution of a route for profiling
@@ -191,7 +204,7 @@ func (jit *JITCompiler) RecordExecution(name string, executionTime time.Duration
 }
 
 // shouldRecompile determines if a route should be recompiled to a higher tier
-func (jit *JITCompiler) shouldRecompile(unit *CompilationUnit) bool {
+func (jit *JITCompiler) shouldRecompile(unit CompilationUnit) bool {
 	// Don't recompile if already at highest tier
 	if unit.Tier >= TierHighlyOptimized {
 		return false
@@ -229,11 +242,11 @@ func (jit *JITCompiler) shouldRecompile(unit *CompilationUnit) bool {
 }
 
 // recompileRoute recompiles a route to a higher optimization tier
-func (jit *JITCompiler) recompileRoute(name string, route *ast.Route, currentUnit *CompilationUnit) ([]byte, error) {
+func (jit *JITCompiler) recompileRoute(name string, route *ast.Route, currentTier OptimizationTier) ([]byte, error) {
 	startTime := time.Now()
 
 	// Determine next tier
-	nextTier := jit.getNextTier(currentUnit.Tier)
+	nextTier := jit.getNextTier(currentTier)
 
 	// Compile with new tier
 	bytecode, err := jit.compileWithTier(route, nextTier)
@@ -241,11 +254,14 @@ func (jit *JITCompiler) recompileRoute(name string, route *ast.Route, currentUni
 		return nil, fmt.Errorf("recompilation failed for %s: %w", name, err)
 	}
 
-	// Update compilation unit
+	// Update the cached compilation unit; one that was invalidated meanwhile
+	// is not resurrected.
 	jit.unitsMux.Lock()
-	currentUnit.Bytecode = bytecode
-	currentUnit.Tier = nextTier
-	currentUnit.CompiledAt = time.Now()
+	if cached, ok := jit.units[name]; ok {
+		cached.Bytecode = bytecode
+		cached.Tier = nextTier
+		cached.CompiledAt = time.Now()
+	}
 	jit.unitsMux.Unlock()
 
 	// Update statistics
@@ -427,9 +443,7 @@ func (jit *JITCompiler) CompileRouteWithTypes(name string, route *ast.Route, typ
 
 // CheckAdaptiveRecompilation checks if a route should be recompiled based on profiling
 func (jit *JITCompiler) CheckAdaptiveRecompilation(name string, route *ast.Route) (bool, error) {
-	jit.unitsMux.RLock()
-	unit, exists := jit.units[name]
-	jit.unitsMux.RUnlock()
+	unit, exists := jit.snapshotUnit(name)
 
 	if !exists {
 		return false, nil
@@ -441,7 +455,7 @@ func (jit *JITCompiler) CheckAdaptiveRecompilation(name string, route *ast.Route
 	}
 
 	// Recompile with the next tier
-	bytecode, err := jit.recompileRoute(name, route, unit)
+	bytecode, err := jit.recompileRoute(name, route, unit.Tier)
 	if err != nil {
 		return false, err
 	}
@@ -456,9 +470,7 @@ func (jit *JITCompiler) CheckAdaptiveRecompilation(name string, route *ast.Route
 
 // RecordDeoptimization records when specialized code had to deoptimize
 func (jit *JITCompiler) RecordDeoptimization(routeName string, reason string, typeMismatch map[string]string) {
-	jit.unitsMux.RLock()
-	unit, exists := jit.units[routeName]
-	jit.unitsMux.RUnlock()
+	unit, exists := jit.snapshotUnit(routeName)
 
 	var fromTier OptimizationTier
 	if exists {
